@@ -1,7 +1,7 @@
 # Per-property harness configuration for ./check. Bounds registered here are the ones
 # that ran clean on the unchanged tree.
 
-AGENT_WITH = ["Havoc/pkg/logr", "Havoc/pkg/common/crypt", "Havoc/pkg/common/parser"]
+AGENT_WITH = ["Havoc/pkg/logr", "Havoc/pkg/common/crypt", "Havoc/pkg/common/parser", "Havoc/pkg/socks"]
 SRV_WITH = ["Havoc/pkg/agent"] + AGENT_WITH
 
 CHECKS = {
@@ -59,6 +59,17 @@ CHECKS = {
         "outside": "gin routing and method dispatch (POST/GET registration), net/http, TLS, the bytes of 404.html; header names are concrete",
         "min_completed": 3,
     },
+    "C15": {
+        "groups": [
+            {"pkg": "Havoc/pkg/socks", "entries": ["H_c15_greeting", "H_c15_reply"]},
+            {"pkg": "Havoc/pkg/socks", "entries": ["H_c15_request"], "shards": 13},
+            {"pkg": "Havoc/pkg/agent", "with": AGENT_WITH, "entries": ["H_c15_proxy"], "shards": 5},
+            {"pkg": "Havoc/pkg/agent", "with": AGENT_WITH, "entries": ["H_c15_relay"]},
+        ],
+        "bounds": "greeting: every stream of 0..6 bytes; request: every stream of 0..12 bytes; both under every segmentation into chunks of 1, 2 or all remaining bytes; reply builder: IPv4/IPv6/domain of length 0,1,2,127,128,255; proxy handler: greeting 0..4 bytes then request 0..10 bytes (client waits for the method selection); relay: READ/CLOSE/CONNECT callbacks for an arbitrary socket id against a table of two clients, data 0..3 bytes.",
+        "outside": "reader goroutines and their lifetime, real TCP, io.Copy in PortFwdRead, pipelined greeting+request, concurrent table use (two-thread harness not built in this revision)",
+        "min_completed": 3,
+    },
     "C11": {
         "groups": [
             {"pkg": "Havoc/cmd/server", "with": SRV_WITH, "entries": ["H_c11_append", "H_c11_replay", "H_c11_fanout", "H_c11_fault"], "no_native_witness": True, "no_native_replay": True},
@@ -86,7 +97,7 @@ CHECKS = {
     },
     "C08": {
         "groups": [
-            {"pkg": "Havoc/pkg/agent", "with": ["Havoc/pkg/logr", "Havoc/pkg/common/parser"], "entries": ["H_c08_chain"], "flags": ["-tags", "uf_aes"], "shards": 3},
+            {"pkg": "Havoc/pkg/agent", "with": ["Havoc/pkg/logr", "Havoc/pkg/common/parser", "Havoc/pkg/socks"], "entries": ["H_c08_chain"], "flags": ["-tags", "uf_aes"], "shards": 3},
         ],
         "bounds": "chains of 1..3 SMB hops below a direct agent; every agent id with an arbitrary top byte (ids >= 0x80000000 included) and fixed distinct low 24 bits; task = arbitrary command / request id / int argument / byte argument of 0..2 bytes; AES-CTR as uninterpreted per-key stream.",
         "outside": "depth > 3; fully arbitrary ids (thorough tier: target id fully symbolic); upward relay is covered by C05/C01 harnesses with AES as identity",
@@ -135,6 +146,8 @@ LEVELS = {
             "note": "Only the third-party service registry is covered in this revision."},
     "C12": {"text": "Bounded symbolic execution of the real (*HTTP).request with real net/http header canonicalisation and strings code over symbolic header/URI/user-agent values; the protocol layer is a recorder, so 'reached' is observed exactly.",
             "note": "gin.Context is built directly (no router); parseAgentRequest stubbed as recorder inside gosx."},
+    "C15": {"text": "Bounded symbolic execution of the real SOCKS negotiation/request parsing (with the real bufio.Reader), the proxy connection handler and the COMMAND_SOCKET callbacks against a reference RFC 1928 parser; the client's byte stream and its TCP segmentation are symbolic.",
+            "note": "net.Conn is a scripted in-memory connection (same code natively); goroutines are recorded, not run."},
     "C11": {"text": "Bounded symbolic execution of the real event log / replay / fan-out / SendEvent code with the websocket write as a fault-injecting recorder; the fault sequence is a symbolic variable, and a mutex left held after any send is reported by the engine's lock model.",
             "note": "websocket, JSON encoder and DB are stubs; single-threaded (interleavings of concurrent broadcasters are outside)."},
     "C06": {"text": "Bounded symbolic execution of the real handleRequest/ClientAuthenticate/EventBroadcast decision logic over an arbitrary first Package (the image of json.Unmarshal), with SHA3 as an injective digest.",
